@@ -2,9 +2,11 @@
    code as found (before fix dbd83a4) cut read replies. *)
 From Coq Require Import ZArith List Bool Lia String.
 Require Import Rig.Generated.GenMemOps Rig.Generated.GenSCP Rig.Model.Base Rig.Model.Machine Rig.Model.MemOps
-  Rig.Spec.MemOps.
+  Rig.Model.MemOpsState Rig.Spec.MemOps.
+Require Rig.Model.SCP.
 Import ListNotations.
 Open Scope Z_scope.
+Open Scope string_scope.
 
 Definition ex_M : machine := pattern_machine 3 [].
 Definition ex_nbr := torus_nbr 8 8.
@@ -81,3 +83,40 @@ Lemma ex_field_instances :
   | _ => None
   end = Some (3%nat, mem_range (ex_M (2, 3)) 4096 40).
 Proof. vm_compute. repeat split; reflexivity. Qed.
+
+(* a burst across the wrap of the 16-bit sequence counter: the connection's generator stands at 65534, window 2,
+   four chunks get the sequence numbers 65534, 65535, 0, 1; two transmissions time out and are repeated, the replies
+   complete the chunks in the order 1, 0, 3, 2 -- and the 16-byte read over it is exact *)
+Definition ex_wrap_conn : SCP.conn := {| SCP.k_seq := 65534; SCP.k_ntx := 0; SCP.k_now := 0; SCP.k_buf := [] |}.
+Definition ex_wrap_cf : SCP.config := SCP.Cf 2 3 10 [] [].
+Definition ex_wrap_events : list SCP.event :=
+  [SCP.Ev [SCP.Dg rc_ok 65535 0] 1; SCP.Ev [SCP.Dg rc_ok 65534 0] 2; SCP.Ev [] 13;
+   SCP.Ev [SCP.Dg rc_ok 1 0; SCP.Dg rc_ok 0 0] 14; SCP.Ev [] 30].
+
+Lemma ex_wrap_instance :
+  (let '(tr, oc, k', _) := SCP.burst ex_wrap_cf (burst_cmds 4) ex_wrap_events ex_wrap_conn in
+   (callback_ids tr, oc, SCP.k_seq k',
+    flat_map (fun o => match o with SCP.OSend _ c s _ => [(c, s)] | _ => [] end) tr)) =
+  ([1; 0; 3; 2], SCP.Returned, 2, [(0, 65534); (1, 65535); (2, 0); (3, 1); (2, 0); (3, 1)]) /\
+  match sc_read_burst ex_wrap_cf ex_wrap_events ex_wrap_conn (mk_env 4 ex_nbr) ex_M (1, 2) 0 4097 16 with
+  | Ok (tr, out) => Some (map (fun r => match rq_cmd r with CRead a _ _ => a | _ => 0 end) tr, out)
+  | _ => None
+  end = Some ([4101; 4097; 4109; 4105], mem_range (ex_M (1, 2)) 4097 16).
+Proof. vm_compute. split; reflexivity. Qed.
+
+(* a controller re-booted with a struct file in which sv sits elsewhere and two fields have changed places reads
+   the field at its NEW address *)
+Definition ex_moved : sfile :=
+  {| sf_sv_base := 4110450176; sf_sv := [("utmp0", (116, 4)); ("utmp1", (112, 4)); ("vcpu_base", (208, 4))];
+     sf_vcpu_size := 128; sf_vcpu := [("user0", (124, 4))] |}.
+
+Lemma ex_reboot_instance :
+  match st_run_op (ctl_boot ex_moved ctl_new) (mk_env 16 ex_nbr) ex_M (1, 2) (OpReadStruct 0 "utmp0") with
+  | Ok (tr, out, _) => Some (map (fun r => match rq_cmd r with CRead a _ _ => a | _ => 0 end) tr, out)
+  | _ => None
+  end = Some ([4110450176 + 116], mem_range (ex_M (1, 2)) (4110450176 + 116) 4) /\
+  match st_run_op ctl_new (mk_env 16 ex_nbr) ex_M (1, 2) (OpReadStruct 0 "utmp0") with
+  | Ok (tr, out, _) => Some (map (fun r => match rq_cmd r with CRead a _ _ => a | _ => 0 end) tr)
+  | _ => None
+  end = Some [sv_struct_base + 112].
+Proof. vm_compute. split; reflexivity. Qed.
